@@ -2096,6 +2096,19 @@ def detect_expand_template_loop(stack: list[str]) -> bool:
     stack_len = len(stack)
     if stack_len < 2 or stack[-1] not in stack[:-1]:
         return False
+    # MediaWiki's rule: a template may not be entered again while its own
+    # body is being expanded.  An earlier entry for the same template that is
+    # directly followed by an argument marker only means that we are inside
+    # that call's arguments, which belong to the caller's frame.  (Without
+    # this check a cycle whose members call several templates of the cycle is
+    # explored walk by walk until the depth limit: exponential time.)
+    top = stack[-1]
+    if top.startswith("Template:"):
+        for i in range(stack_len - 2, -1, -1):
+            if stack[i] == top and not stack[i + 1].startswith(
+                ("ARGVAL-", "ARGNAME")
+            ):
+                return True
     for pattern_size in range(1, stack_len // 2 + 1):
         for i in range(stack_len - pattern_size):
             if (stack_len - i) % pattern_size == 0:
